@@ -23,6 +23,39 @@ CHECKS["C20"] = dict(
     note="width abstraction by ranks (the code only compares widths with max); deviations predicted by named Dev_ operators are known findings",
     technique="TLA+ requirement spec evaluated by TLC on the complete recorded function table (trace validation of a finite function)",
     engine="tlc+table")
+CHECKS["C14"] = dict(
+    level="model_checking", design="5/C14, 4.11",
+    text="Every string of length <= 6 (thorough 7) over three 14-character alphabets of lexically critical characters (2.4e7 / 3.4e8 strings) "
+         "goes through tokenize and LexedStr with the partition clauses evaluated on each; the robustness corpus (repository texts, mutations, "
+         "random UTF-8 incl. NUL and multi-byte, nesting) is lexed and a stride sample of the recorded token streams and tables is validated by "
+         "TLC against LexTrace.tla, whose clauses are the statement of C14.",
+    note="partition clauses evaluated natively at scale and by TLC on the recorded sample; random inputs <= 4 KiB",
+    technique="bounded-exhaustive enumeration + TLC trace validation of recorded token streams (LexTrace.tla)",
+    engine="walker+tlc")
+CHECKS["C15"] = dict(
+    level="model_checking", design="5/C15, 4.2",
+    text="Lexemes.tla states the OpenQASM 3 lexical grammar as a pool of 213 lexeme descriptors plus NeedsSep; TLC enumerates every ordered pair "
+         "of lexemes with every admissible separator (4.7e5 cases) and simulated longer sequences; the real lexer + token table must show exactly "
+         "those lexemes (kind, exact text) and no lexical error.",
+    note="one representative per literal/identifier shape; unicode-xid trusted; CRLF after line-terminated lexemes not exercised",
+    technique="TLA+ requirement spec as generator (TLC exhaustive pairs + simulation), behaviours replayed into the real lexer",
+    engine="tlc+replay")
+CHECKS["C11"] = dict(
+    level="model_checking", design="5/C11, 4.10",
+    text="(a) the malformed classes of C11 in Lexemes.tla are spliced before/after every pool lexeme with every separator and at end of input; each "
+         "must carry a lexical diagnostic on an overlapping token. (b) Pipeline.tla (one action per stage) is model-checked against Gating.tla for every "
+         "include chain of depth <= 4 with one fault class per file (780 configurations); each is materialised on disk in 3-12 textual variants and "
+         "pushed through both entry points; observed stage outcomes must equal Gating's.",
+    note="fault snippets are fixed texts per class; include chains are linear",
+    technique="TLC model check of staged-pipeline spec against gating requirement + replay of every configuration; TLC-generated malformed lexeme cases",
+    engine="tlc+replay")
+CHECKS["C10"] = dict(
+    level="exploration", design="5/C10, 4.9",
+    text="Literals.tla enumerates 2 818 literal spellings with canonical values (digit strings in the literal's own radix, canonical float text, bits/width, "
+         "unit, sign); each is analysed and the literal in the semantic graph and the AST accessor values are compared.",
+    note="nearest-double rounding delegated to str::parse::<f64> (trusted); no big integers in TLA+, values are digit strings",
+    technique="TLA+ requirement spec as case generator (TLC), replay into the real analyser",
+    engine="tlc+replay")
 NOT_YET = {}
 for i in range(1, 21):
     pid = f"C{i:02d}"
